@@ -156,14 +156,14 @@ many steps, a state with the program counter just past the code that is related 
 In words: the compiled code issues exactly the device commands, waits and output the source
 says, in the same order, and leaves every variable, macro and register (but the scratch register
 `result`) as the source says. -/
-theorem C01_gen_sim_partial (img : Image) (b : Block) (hb : FragBlock b) (code : List Instr)
+theorem C01_gen_sim_partial (img : Image) (R : List (String × Sem.Routine)) (b : Block) (hb : FragBlock b) (code : List Instr)
     (hcode : Gen.genProgram b = some code) (f : Nat) (σ σ' : S) (s : State) (pc : Nat)
-    (hsim : Sim none [] σ s) (hpc : s.pc = (pc : Int)) (hc : CodeAt img pc code)
+    (hsim : Sim ⟨none, R⟩ [] σ s) (hpc : s.pc = (pc : Int)) (hc : CodeAt img pc code)
     (h : execBlock f b σ = (.normal, σ')) :
-    ∃ k, (run img k s).pc = ((pc + code.length : Nat) : Int) ∧ Sim none [] σ' (run img k s) := by
+    ∃ k, (run img k s).pc = ((pc + code.length : Nat) : Int) ∧ Sim ⟨none, R⟩ [] σ' (run img k s) := by
   have hres : resolve (genBlock b) pc (0 : Nat) = code := resolve_of_mapM _ _ hcode pc _
   have hlen : code.length = (genBlock b).length := by rw [← hres, resolve_length]
-  obtain ⟨k, hk1, hk2⟩ := C01_gen_sim_block img none b hb f σ σ' .normal s pc 0 [] hsim hpc
+  obtain ⟨k, hk1, hk2⟩ := C01_gen_sim_block img ⟨none, R⟩ b hb f σ σ' .normal s pc 0 [] hsim hpc
     (by rw [hres]; exact hc) h (Or.inl rfl)
   exact ⟨k, by rw [hk1, hlen]; rfl, hk2⟩
 
@@ -171,22 +171,22 @@ theorem C01_gen_sim_partial (img : Image) (b : Block) (hb : FragBlock b) (code :
 is exactly the source-level trace — which by the definition of `Sem` consists of one group of
 events per dynamic execution of a statement, in program order — and so are the variables,
 macros, lights and all registers other than `result`. -/
-theorem C01_once_each_in_order (img : Image) (b : Block) (hb : FragBlock b) (code : List Instr)
+theorem C01_once_each_in_order (img : Image) (R : List (String × Sem.Routine)) (b : Block) (hb : FragBlock b) (code : List Instr)
     (hcode : Gen.genProgram b = some code) (f : Nat) (σ σ' : S) (s : State) (pc : Nat)
-    (hsim : Sim none [] σ s) (hpc : s.pc = (pc : Int)) (hc : CodeAt img pc code)
+    (hsim : Sim ⟨none, R⟩ [] σ s) (hpc : s.pc = (pc : Int)) (hc : CodeAt img pc code)
     (h : execBlock f b σ = (.normal, σ')) :
     ∃ k, (run img k s).trace = σ'.vm.trace ∧ (run img k s).globals = σ'.vm.globals ∧
       (run img k s).constants = σ'.vm.constants ∧ (run img k s).lights = σ'.vm.lights ∧
       (∀ r, r ≠ .result → (run img k s).regs r = σ'.vm.regs r) ∧
       (run img k s).status = .running ∧ (run img k s).pc = ((pc + code.length : Nat) : Int) := by
-  obtain ⟨k, hk1, hk2⟩ := C01_gen_sim_partial img b hb code hcode f σ σ' s pc hsim hpc hc h
+  obtain ⟨k, hk1, hk2⟩ := C01_gen_sim_partial img R b hb code hcode f σ σ' s pc hsim hpc hc h
   exact ⟨k, hk2.trace.symm, hk2.globals.symm, hk2.constants.symm, hk2.lights.symm,
     fun r hr => (hk2.regs r hr).symm, hk2.running, hk1⟩
 
 /-- the initial states of `Sem.run` and of the machine are related -/
 theorem Sim.init (lights : List Light) (rts : List (String × Sem.Routine)) :
-    Sim none [] { vm := Vm.init lights, routines := rts } (Vm.init lights) :=
-  ⟨rfl, rfl, LoopsOnly.nil, rfl, rfl, rfl, rfl, rfl, rfl, rfl, rfl, rfl, rfl, rfl, fun _ _ => rfl⟩
+    Sim ⟨none, rts⟩ [] { vm := Vm.init lights, routines := rts } (Vm.init lights) :=
+  ⟨rfl, rfl, LoopsOnly.nil, rfl, rfl, ⟨rfl, rfl⟩, rfl, rfl, rfl, rfl, rfl, rfl, rfl, rfl, fun _ _ => rfl⟩
 
 /-- **whole scripts.**  A script of the fragment, compiled by `Gen.genProgram` and placed at
 address 0 of an image that ends with it: if the source-level run (`Sem.run`) ends normally, the
@@ -200,7 +200,7 @@ theorem C01_gen_sim_program (b : Block) (hb : FragBlock b) (code : List Instr)
   have hc : CodeAt ⟨code.toArray, rts⟩ 0 code := by
     have := CodeAt.intro [] code [] rts
     simpa using this
-  obtain ⟨k, hk1, hk2⟩ := C01_gen_sim_partial ⟨code.toArray, rts⟩ b hb code hcode f _ σ'
+  obtain ⟨k, hk1, hk2⟩ := C01_gen_sim_partial ⟨code.toArray, rts⟩ _ b hb code hcode f _ σ'
     (Vm.init lights) 0 (Sim.init lights _) rfl hc h
   refine ⟨k + 1, ?_⟩
   rw [run_add, run_one _ _ hk2.running]
